@@ -64,7 +64,12 @@ Verdict(c, opener) ==
              ELSE IF c.delta = 0 THEN "Raises" ELSE "Any")
       [] fv = "valid" -> IF c.delta = 0 THEN "Opens" ELSE "Raises"
 
-Rows == {[c |-> c, array |-> Verdict(c, "Array"), open |-> Verdict(c, "open")] : c \in Cases}
+(* The verdict concerns the directory the operating system resolves the given path to, whatever *)
+(* the spelling: "plain", or "dotdot" = <dir>/<link>/../<name> where <link> is a symbolic link  *)
+(* to a directory elsewhere, so that the lexically simplified path (<dir>/<name>, where a valid *)
+(* decoy array lives) differs from the resolved one (next to the link's target).                *)
+PathForms == {"plain", "dotdot"}
+Rows == {[c |-> c, array |-> Verdict(c, "Array"), open |-> Verdict(c, "open"), forms |-> PathForms] : c \in Cases}
 
 (* sanity properties of the table itself, checked by TLC as ASSUMEs *)
 OpenRejectsInvalid ==
